@@ -1809,120 +1809,225 @@ samples as leaves and depth `k − 1` -/
 example : (SumTree.seq 3 [1, 4, 1, 5]).leaves = [3, 1, 4, 1, 5] ∧ (SumTree.seq 3 [1, 4, 1, 5]).depth = 4 :=
   SumTree.seq_spec 3 [1, 4, 1, 5]
 
-/-! ## 14. Round 5: `phase_mean()` / `anomaly()` as executed in IEEE binary64
+/-! ## 14. Round 5: `phase_mean()` / `anomaly()` as executed in IEEE binary64 / binary32
 
-The abstract arithmetic of §13 is instantiated: `rn64` is round-to-nearest-even to 53 bits for
-either sign (C09's `rn53`), `flAdd / flSub / flDiv` are the correctly rounded operations, and
-`flPhaseMeanLoop` / `flAnomalyOf` are the loops of `phase_mean()` / `anomaly()` with every operation
-rounded, the sum over axis 0 running row after row as `np.add.reduce` does on a C-ordered block.
-The driver executes this model and the harness compares it bit for bit with the real float64
-results.  (Exponent range unbounded: no overflow, no underflow of the division.) -/
+The abstract arithmetic of §13 is instantiated.  `rn64` / `rn32` are round-to-nearest-even to 53 /
+24 bits for either sign; `ops64` are the correctly rounded binary64 operations (float64 and int64
+observables), `ops32` the operations NumPy applies to float32 observables (`+`, `-` in binary32, the
+division by the count in double and rounded to binary32 again).  `flPhaseMeanLoop P` / `flAnomalyOf P`
+are the loops of `phase_mean()` / `anomaly()` with every operation rounded, the sum over axis 0
+running row after row as `np.add.reduce` does on a C-ordered block.  The driver executes these
+models and the harness compares them bit for bit with the real results.  The theorems are stated
+for every arithmetic `F` satisfying the standard model, run through the *executable* model
+(`F.ops`), and then for the two IEEE instances.  (Exponent range unbounded: no overflow, no
+underflow of the division.) -/
 
 /-- **IEEE binary64 round-to-nearest-even satisfies the standard model** with `u = ud = 2⁻⁵³`:
 every correctly rounded `+`, `-`, `/` has relative error at most `2⁻⁵³`, for operands and results
 of either sign (the hypothesis of the round-4 bounds is a theorem for this arithmetic) -/
 theorem ieee_double_standard_model (a b : ℚ) :
-    |flAdd a b - (a + b)| ≤ (1 / 2 ^ 53) * |a + b|
-      ∧ |flSub a b - (a - b)| ≤ (1 / 2 ^ 53) * |a - b|
-      ∧ |flDiv a b - a / b| ≤ (1 / 2 ^ 53) * |a / b| :=
+    |ops64.add a b - (a + b)| ≤ (1 / 2 ^ 53) * |a + b|
+      ∧ |ops64.sub a b - (a - b)| ≤ (1 / 2 ^ 53) * |a - b|
+      ∧ |ops64.div a b - a / b| ≤ (1 / 2 ^ 53) * |a / b| :=
   ⟨rn64_err _, rn64_err _, rn64_err _⟩
+
+/-- **the float32 path satisfies the standard model** with `u = 2⁻²⁴` and, for the division carried
+out in double and rounded to binary32 again, `ud = 2⁻²⁴ + 2⁻⁵²` (the constants the oracle uses) -/
+theorem ieee_single_standard_model (a b : ℚ) :
+    |ops32.add a b - (a + b)| ≤ (1 / 2 ^ 24) * |a + b|
+      ∧ |ops32.sub a b - (a - b)| ≤ (1 / 2 ^ 24) * |a - b|
+      ∧ |ops32.div a b - a / b| ≤ (1 / 2 ^ 24 + 1 / 2 ^ 52) * |a / b| :=
+  ⟨rn32_err _, rn32_err _, rn32_rn64_err _⟩
 
 /-- rounding is sign-symmetric (so anomalies of the negated observable are the negated anomalies) -/
 theorem ieee_rounding_odd (x : ℚ) : rn64 (-x) = -rn64 x := rn64_neg x
 
-/-- **shape and NaN rows of the binary64 `phase_mean()`**: `c` rows; row `i` is a NaN row exactly
-when the rational model's row is (the phase has no sample), otherwise it has one entry per node -/
-theorem ieee_phase_mean_shape (c n : Nat) (obs : Mat) (h : ∀ r ∈ obs, r.length = n) :
-    (flPhaseMeanLoop c n obs).length = c
+/-- **shape and NaN rows of the float `phase_mean()`** (any rounded operations): `c` rows; row `i`
+is a NaN row exactly when the rational model's row is (the phase has no sample), otherwise it has
+one entry per node -/
+theorem float_exec_phase_mean_shape (P : FlOps) (c n : Nat) (obs : Mat)
+    (h : ∀ r ∈ obs, r.length = n) :
+    (flPhaseMeanLoop P c n obs).length = c
       ∧ ∀ i, i < c →
-          (((flPhaseMeanLoop c n obs)[i]? = some none ↔ (phaseMeanLoop c n obs)[i]? = some none)
-            ∧ ∀ mf, (flPhaseMeanLoop c n obs)[i]? = some (some mf) → mf.length = n) := by
+          (((flPhaseMeanLoop P c n obs)[i]? = some none ↔ (phaseMeanLoop c n obs)[i]? = some none)
+            ∧ ∀ mf, (flPhaseMeanLoop P c n obs)[i]? = some (some mf) → mf.length = n) := by
   rw [flPhaseMeanLoop_eq, phaseMeanLoop_eq]
   refine ⟨by simp, fun i hi => ?_⟩
   simp only [phaseMean, List.getElem?_map, List.getElem?_range hi, Option.map_some,
     Option.some.injEq]
   have hrows : ∀ r ∈ everyNth c i obs, r.length = n := fun r hr => h r (mem_everyNth _ _ _ _ hr)
-  cases hs : everyNth c i obs with
-  | nil => simp [flColMean, flColSum, colMean]
-  | cons r rs =>
-    rw [hs] at hrows
-    refine ⟨by simp [flColMean, flColSum, colMean], fun mf hmf => ?_⟩
-    have h0 : 0 < n ∨ n = 0 := by omega
-    rcases h0 with h0 | h0
-    · exact (flColMean_getD n 0 h0 r rs hrows mf hmf).2
-    · simp only [flColMean, flColSum, Option.map_some, Option.some.injEq] at hmf
-      subst hmf
-      have hr : r.length = 0 := by rw [hrows r (by simp), h0]
-      have : r = [] := List.length_eq_zero_iff.1 hr
-      subst this
-      have : ∀ (rs : Mat), rs.foldl (fun acc row => List.zipWith flAdd acc row) ([] : Vec) = [] := by
-        intro rs; induction rs with
-        | nil => rfl
-        | cons x xs ih => simpa using ih
-      simp [this, h0]
+  refine ⟨?_, fun mf hmf => flColMean_length P n _ hrows mf hmf⟩
+  cases hs : everyNth c i obs <;> simp [flColMean, flColSum, colMean]
 
-/-- **the binary64 phase mean as executed is within the proved bound of the exact phase mean**:
-for every cycle length, phase `i` with `k ≥ 1` samples and node `j`,
-`|m̂[i][j] − m[i][j]| ≤ ((1+2⁻⁵³)^k − 1) · mean|observable[i::c, j]|`, where `m̂` is the row the
-float loop stores and `m` the row of the rational model (`phaseMeanLoop`) -/
-theorem ieee_phase_mean_error (c n i j : Nat) (obs : Mat) (h : ∀ r ∈ obs, r.length = n)
+/-- the shape of the float `anomaly()` is the shape of the observable -/
+theorem float_exec_anomaly_shape (P : FlOps) (c n : Nat) (obs : Mat) (hc : 0 < c)
+    (h : ∀ r ∈ obs, r.length = n) :
+    (flAnomalyOf P c n obs).length = obs.length ∧ ∀ a ∈ flAnomalyOf P c n obs, a.length = n := by
+  rw [flAnomalyOf_closed P c n obs hc]
+  refine ⟨by simp, fun a ha => ?_⟩
+  obtain ⟨t, ht, rfl⟩ := List.getElem_of_mem ha
+  simp only [List.length_zipWith, List.length_range, Nat.min_self] at ht
+  simp only [List.getElem_zipWith, List.getElem_range, flVsub, List.length_zipWith]
+  have hot : obs[t].length = n := h _ (List.getElem_mem _)
+  have hne := everyNth_phase_ne_nil c hc obs t ht
+  have hrows : ∀ r ∈ everyNth c (t % c) obs, r.length = n :=
+    fun r hr => h r (mem_everyNth _ _ _ _ hr)
+  obtain ⟨mf, hmf⟩ : ∃ mf, flColMean P (everyNth c (t % c) obs) = some mf := by
+    cases hs : everyNth c (t % c) obs with
+    | nil => exact absurd hs hne
+    | cons r rs => simp [flColMean, flColSum]
+  have := flColMean_length P n _ hrows mf hmf
+  simp [flMeanRow, hmf, hot, this]
+
+/-- **the phase mean as executed is within the proved bound of the exact phase mean**: for every
+arithmetic satisfying the standard model, cycle length, phase `i` with `k ≥ 1` samples and node `j`,
+`|m̂[i][j] − m[i][j]| ≤ ((1+u)^(k−1)(1+ud) − 1) · mean|observable[i::c, j]|`, where `m̂` is the row
+the float loop stores and `m` the row of the rational model (`phaseMeanLoop`) -/
+theorem float_exec_phase_mean_error {u ud : ℚ} (F : FlArith u ud) (hu : 0 ≤ u) (hud : 0 ≤ ud)
+    (c n i j : Nat) (obs : Mat) (h : ∀ r ∈ obs, r.length = n)
     (hi : i < c) (hj : j < n) (m mf : Vec)
     (hm : (phaseMeanLoop c n obs)[i]? = some (some m))
-    (hf : (flPhaseMeanLoop c n obs)[i]? = some (some mf)) :
+    (hf : (flPhaseMeanLoop F.ops c n obs)[i]? = some (some mf)) :
     |mf.getD j 0 - m.getD j 0|
-      ≤ ((1 + 1 / 2 ^ 53) ^ ((everyNth c i obs).length - 1) * (1 + 1 / 2 ^ 53) - 1)
+      ≤ ((1 + u) ^ ((everyNth c i obs).length - 1) * (1 + ud) - 1)
           * (((column (everyNth c i obs) j).map (|·|)).sum / (everyNth c i obs).length) := by
   rw [phaseMeanLoop_eq] at hm
   rw [flPhaseMeanLoop_eq] at hf
   simp only [phaseMean, List.getElem?_map, List.getElem?_range hi, Option.map_some,
     Option.some.injEq] at hm hf
-  exact flColMean_error n j hj _ (fun r hr => h r (mem_everyNth _ _ _ _ hr)) m mf hm hf
+  exact flColMean_error F hu hud n j hj _ (fun r hr => h r (mem_everyNth _ _ _ _ hr)) m mf hm hf
 
-/-- **add-back in binary64, as executed**: for every cycle length `c ≥ 1` and every sample `t`, the
-phase `t % c` has a computed mean row `m̂`, the computed anomaly row exists with one entry per node,
-and `anomaly[t][j] + m̂[j]` is `observable[t][j]` up to one rounding error of their difference -/
-theorem ieee_anomaly_add_phase_mean (c n : Nat) (obs : Mat) (hc : 0 < c)
-    (h : ∀ r ∈ obs, r.length = n) (t : Nat) (ht : t < obs.length) :
-    ∃ mf a, (flPhaseMeanLoop c n obs)[t % c]? = some (some mf)
-      ∧ (flAnomalyOf c n obs)[t]? = some a
+/-- **add-back as executed**: for every cycle length `c ≥ 1` and every sample `t`, the phase
+`t % c` has a computed mean row `m̂`, the computed anomaly row exists with one entry per node, and
+`anomaly[t][j] + m̂[j]` is `observable[t][j]` up to one rounding error of their difference -/
+theorem float_exec_anomaly_add_phase_mean {u ud : ℚ} (F : FlArith u ud) (c n : Nat) (obs : Mat)
+    (hc : 0 < c) (h : ∀ r ∈ obs, r.length = n) (t : Nat) (ht : t < obs.length) :
+    ∃ mf a, (flPhaseMeanLoop F.ops c n obs)[t % c]? = some (some mf)
+      ∧ (flAnomalyOf F.ops c n obs)[t]? = some a
       ∧ a.length = n
       ∧ ∀ j, j < n →
-          |a.getD j 0 + mf.getD j 0 - obs[t].getD j 0|
-            ≤ (1 / 2 ^ 53) * |obs[t].getD j 0 - mf.getD j 0| := by
+          |a.getD j 0 + mf.getD j 0 - obs[t].getD j 0| ≤ u * |obs[t].getD j 0 - mf.getD j 0| := by
   have hne := everyNth_phase_ne_nil c hc obs t ht
   have hrows : ∀ r ∈ everyNth c (t % c) obs, r.length = n :=
     fun r hr => h r (mem_everyNth _ _ _ _ hr)
   have hot : obs[t].length = n := h _ (List.getElem_mem _)
-  cases hs : everyNth c (t % c) obs with
-  | nil => exact absurd hs hne
-  | cons r rs =>
-    rw [hs] at hrows
-    obtain ⟨mf, hmf⟩ : ∃ mf, flColMean (r :: rs) = some mf := by simp [flColMean, flColSum]
-    have hrow : flMeanRow c obs (t % c) = mf := by simp [flMeanRow, hs, hmf]
-    have hlen : mf.length = n := by
-      rcases Nat.eq_zero_or_pos n with h0 | h0
-      · have := (ieee_phase_mean_shape c n obs h).2 (t % c) (Nat.mod_lt t hc)
-        refine this.2 mf ?_
-        rw [flPhaseMeanLoop_eq]
-        simp [List.getElem?_range (Nat.mod_lt t hc), hs, hmf]
-      · exact (flColMean_getD n 0 h0 r rs hrows mf hmf).2
-    refine ⟨mf, flVsub obs[t] mf, ?_, ?_, ?_, ?_⟩
-    · rw [flPhaseMeanLoop_eq]
-      simp [List.getElem?_range (Nat.mod_lt t hc), hs, hmf]
-    · rw [flAnomalyOf_closed c n obs hc]
-      simp [ht, hrow]
-    · simp [flVsub, hot, hlen]
-    · intro j hj
-      unfold flVsub
-      rw [zipWith_getD flSub _ _ j (by omega) (by omega)]
-      exact float_addback_error ieee64 _ _
+  obtain ⟨mf, hmf⟩ : ∃ mf, flColMean F.ops (everyNth c (t % c) obs) = some mf := by
+    cases hs : everyNth c (t % c) obs with
+    | nil => exact absurd hs hne
+    | cons r rs => simp [flColMean, flColSum]
+  have hrow : flMeanRow F.ops c obs (t % c) = mf := by simp [flMeanRow, hmf]
+  have hlen : mf.length = n := flColMean_length F.ops n _ hrows mf hmf
+  refine ⟨mf, flVsub F.ops obs[t] mf, ?_, ?_, ?_, ?_⟩
+  · rw [flPhaseMeanLoop_eq]
+    simp [List.getElem?_range (Nat.mod_lt t hc), hmf]
+  · rw [flAnomalyOf_closed F.ops c n obs hc]
+    simp [ht, hrow]
+  · simp [flVsub, hot, hlen]
+  · intro j hj
+    unfold flVsub
+    rw [zipWith_getD F.ops.sub _ _ j (by omega) (by omega)]
+    exact float_addback_error F _ _
+
+/-- **zero phase mean as executed**: for every phase `i` with samples and every node `j`, the
+(exact) mean of the computed anomalies `anomaly()[i::c, j]` is at most the error bound of the
+computed mean plus `u` times the mean absolute deviation from the computed mean `m̂` -/
+theorem float_exec_anomaly_phase_mean_error {u ud : ℚ} (F : FlArith u ud) (hu : 0 ≤ u)
+    (hud : 0 ≤ ud) (c n i j : Nat) (obs : Mat) (hc : 0 < c) (h : ∀ r ∈ obs, r.length = n)
+    (hi : i < c) (hT : i < obs.length) (hj : j < n) (mf : Vec)
+    (hf : (flPhaseMeanLoop F.ops c n obs)[i]? = some (some mf)) :
+    |(column (everyNth c i (flAnomalyOf F.ops c n obs)) j).sum / (everyNth c i obs).length|
+      ≤ ((1 + u) ^ ((everyNth c i obs).length - 1) * (1 + ud) - 1)
+            * (((column (everyNth c i obs) j).map (|·|)).sum / (everyNth c i obs).length)
+        + u * (((column (everyNth c i obs) j).map fun x => |x - mf.getD j 0|).sum
+                / (everyNth c i obs).length) := by
+  rw [flPhaseMeanLoop_eq] at hf
+  simp only [List.getElem?_map, List.getElem?_range hi, Option.map_some, Option.some.injEq] at hf
+  have hrows : ∀ r ∈ everyNth c i obs, r.length = n := fun r hr => h r (mem_everyNth _ _ _ _ hr)
+  have hlen : mf.length = n := flColMean_length F.ops n _ hrows mf hf
+  have hrow : flMeanRow F.ops c obs i = mf := by simp [flMeanRow, hf]
+  rw [flAnomaly_phase_slice F.ops c n obs hc i hi, hrow,
+    column_map_flVsub F.ops n j hj _ mf hrows hlen]
+  have hne : everyNth c i obs ≠ [] := by
+    have := everyNth_phase_ne_nil c hc obs i hT
+    rwa [Nat.mod_eq_of_lt hi] at this
+  have hcne : column (everyNth c i obs) j ≠ [] := by
+    intro h0
+    have := congrArg List.length h0
+    rw [column_length'] at this
+    exact hne (List.length_eq_zero_iff.1 (by simpa using this))
+  obtain ⟨m, hm⟩ : ∃ m, colMean n (everyNth c i obs) = some m :=
+    ⟨_, colMean_of_ne_nil n _ hne⟩
+  have h1 := anomaly_mean_error F (mf.getD j 0) (column (everyNth c i obs) j) hcne
+  have h2 := flColMean_error F hu hud n j hj _ hrows m mf hm hf
+  rw [colMean_getD n _ j m hrows hj hm, abs_sub_comm] at h2
+  rw [column_length'] at h1 h2
+  exact h1.trans (by linarith)
+
+/-! ### the two IEEE instances (the model the driver executes) -/
+
+/-- **binary64**: the phase mean NumPy computes for a float64 / int64 observable (sum over axis 0
+row after row) is within `((1+2⁻⁵³)^k − 1) · mean|x|` of the exact phase mean -/
+theorem ieee_phase_mean_error (c n i j : Nat) (obs : Mat) (h : ∀ r ∈ obs, r.length = n)
+    (hi : i < c) (hj : j < n) (m mf : Vec)
+    (hm : (phaseMeanLoop c n obs)[i]? = some (some m))
+    (hf : (flPhaseMeanLoop ops64 c n obs)[i]? = some (some mf)) :
+    |mf.getD j 0 - m.getD j 0|
+      ≤ ((1 + u64) ^ ((everyNth c i obs).length - 1) * (1 + u64) - 1)
+          * (((column (everyNth c i obs) j).map (|·|)).sum / (everyNth c i obs).length) :=
+  float_exec_phase_mean_error ieee64 u64_nonneg u64_nonneg c n i j obs h hi hj m mf hm hf
+
+/-- **binary32 path** (float32 observables): the same with `u = 2⁻²⁴`, `ud = 2⁻²⁴ + 2⁻⁵²` -/
+theorem ieee32_phase_mean_error (c n i j : Nat) (obs : Mat) (h : ∀ r ∈ obs, r.length = n)
+    (hi : i < c) (hj : j < n) (m mf : Vec)
+    (hm : (phaseMeanLoop c n obs)[i]? = some (some m))
+    (hf : (flPhaseMeanLoop ops32 c n obs)[i]? = some (some mf)) :
+    |mf.getD j 0 - m.getD j 0|
+      ≤ ((1 + u32) ^ ((everyNth c i obs).length - 1) * (1 + (u32 + 1 / 2 ^ 52)) - 1)
+          * (((column (everyNth c i obs) j).map (|·|)).sum / (everyNth c i obs).length) :=
+  float_exec_phase_mean_error ieee32 u32_nonneg (add_nonneg u32_nonneg (by positivity))
+    c n i j obs h hi hj m mf hm hf
+
+/-- **binary64 add-back**: `anomaly()[t][j] + phase_mean()[t % c][j]` is `observable()[t][j]` up to
+`2⁻⁵³ · |observable − phase mean|`, for every sample of every record and cycle length -/
+theorem ieee_anomaly_add_phase_mean (c n : Nat) (obs : Mat) (hc : 0 < c)
+    (h : ∀ r ∈ obs, r.length = n) (t : Nat) (ht : t < obs.length) :
+    ∃ mf a, (flPhaseMeanLoop ops64 c n obs)[t % c]? = some (some mf)
+      ∧ (flAnomalyOf ops64 c n obs)[t]? = some a
+      ∧ a.length = n
+      ∧ ∀ j, j < n →
+          |a.getD j 0 + mf.getD j 0 - obs[t].getD j 0| ≤ u64 * |obs[t].getD j 0 - mf.getD j 0| :=
+  float_exec_anomaly_add_phase_mean ieee64 c n obs hc h t ht
+
+/-- **binary32 add-back** -/
+theorem ieee32_anomaly_add_phase_mean (c n : Nat) (obs : Mat) (hc : 0 < c)
+    (h : ∀ r ∈ obs, r.length = n) (t : Nat) (ht : t < obs.length) :
+    ∃ mf a, (flPhaseMeanLoop ops32 c n obs)[t % c]? = some (some mf)
+      ∧ (flAnomalyOf ops32 c n obs)[t]? = some a
+      ∧ a.length = n
+      ∧ ∀ j, j < n →
+          |a.getD j 0 + mf.getD j 0 - obs[t].getD j 0| ≤ u32 * |obs[t].getD j 0 - mf.getD j 0| :=
+  float_exec_anomaly_add_phase_mean ieee32 c n obs hc h t ht
+
+/-- **binary64 zero phase mean** of the anomalies as executed -/
+theorem ieee_anomaly_phase_mean_error (c n i j : Nat) (obs : Mat) (hc : 0 < c)
+    (h : ∀ r ∈ obs, r.length = n) (hi : i < c) (hT : i < obs.length) (hj : j < n) (mf : Vec)
+    (hf : (flPhaseMeanLoop ops64 c n obs)[i]? = some (some mf)) :
+    |(column (everyNth c i (flAnomalyOf ops64 c n obs)) j).sum / (everyNth c i obs).length|
+      ≤ ((1 + u64) ^ ((everyNth c i obs).length - 1) * (1 + u64) - 1)
+            * (((column (everyNth c i obs) j).map (|·|)).sum / (everyNth c i obs).length)
+        + u64 * (((column (everyNth c i obs) j).map fun x => |x - mf.getD j 0|).sum
+                / (everyNth c i obs).length) :=
+  float_exec_anomaly_phase_mean_error ieee64 u64_nonneg u64_nonneg c n i j obs hc h hi hT hj mf hf
 
 /-- non-vacuity / the model really rounds: `1 + 2⁻⁵³` is a tie and goes to the even neighbour `1`,
-`1/3` is not representable, and a representable sum is returned exactly -/
-example : flAdd 1 (1 / 2 ^ 53) = 1 ∧ flDiv 1 3 ≠ 1 / 3 ∧ flAdd (3 / 2) (-1 / 4) = 5 / 4 := by
+`1/3` is not representable, a representable sum is returned exactly; in binary32 `1 + 2⁻²⁴` is the tie -/
+example : ops64.add 1 (1 / 2 ^ 53) = 1 ∧ ops64.div 1 3 ≠ 1 / 3 ∧ ops64.add (3 / 2) (-1 / 4) = 5 / 4
+    ∧ ops32.add 1 (1 / 2 ^ 24) = 1 ∧ ops32.add 1 (3 / 2 ^ 24) = 1 + 1 / 2 ^ 22
+    ∧ ops32.div 1 3 ≠ ops64.div 1 3 := by
   decide +kernel
 
-example : flPhaseMeanLoop 2 1 [[1], [1 / 3], [1 / 2 ^ 53]] = [some [1 / 2], some [flDiv (1 / 3) 1]] := by
+example : flPhaseMeanLoop ops64 2 1 [[1], [1 / 3], [1 / 2 ^ 53]]
+    = [some [1 / 2], some [ops64.div (1 / 3) 1]] := by
   decide +kernel
 
 end Pyunicorn.Window
